@@ -21,7 +21,7 @@ func main() {
 	if thorough {
 		n = 1500
 	}
-	vlib.ExecConformance(c, "C01", bins, vs, rand.New(rand.NewSource(vlib.Seed())), n, vlib.ExecMode{Faults: true, Sentinel: true, DirFaults: true, Corpus: append(vlib.MergeCorpus("C01"), vlib.StressCorpus("C01", 24)...),
+	vlib.ExecConformance(c, "C01", bins, vs, rand.New(rand.NewSource(vlib.Seed())), n, vlib.ExecMode{Faults: true, Sentinel: true, DirFaults: true, Corpus: append(append(vlib.MergeCorpus("C01"), vlib.StressCorpus("C01", 24)...), vlib.SkipIncludeCorpus("C01")...),
 		// every 4th scenario also over the real HTTP transports: the payloads on the wire must be the executor's
 		Transports: []string{"tp:post", "tp:sse", "tp:mixed"}, TransportEvery: 4})
 	// subscriptions: every event of the stream is completed like a query result of the field
